@@ -4,12 +4,14 @@ mod consts;
 mod ctx;
 mod fam_canary;
 mod fam_cipher;
+mod fam_clicodec;
 mod fam_codec;
 mod fam_edit;
 mod fam_extract;
 mod fam_frame;
 mod fam_history;
 mod fam_list;
+mod fam_crypt;
 mod fam_foreign;
 mod fam_round;
 mod fam_split;
@@ -64,6 +66,8 @@ fn main() {
         "list" => fam_list::list(&mut ctx),
         "roundtrip" => fam_round::roundtrip(&mut ctx),
         "foreign" => fam_foreign::foreign(&mut ctx),
+        "cli-codec" => fam_clicodec::cli_codec(&mut ctx),
+        "cli-crypt" => fam_crypt::cli_crypt(&mut ctx),
         "hostile-solid" => fam_foreign::hostile_solid(&mut ctx),
         "split" => fam_split::split(&mut ctx),
         "cli-tree" => fam_tree::cli_tree(&mut ctx),
